@@ -74,11 +74,11 @@ class Locality(Family):
             adaptive = "Adaptive" in s
             ms = (5,) if tier == "quick" else (5, 6)
             if adaptive:
-                ms = (5,) if tier == "quick" else (5, 6)
+                ms = (5,)          # two independent adaptive runs: m = 6 does not finish within the budget
             for m in ms:
                 for n in ((2,) if adaptive else (2, 3)):
                     ps = params_for(s, tier)
-                    ps = [q for q in ps if "a" not in q or int(q["a"]) <= n][: ((1 if adaptive else 2) if tier == "quick" else 4)]
+                    ps = [q for q in ps if "a" not in q or int(q["a"]) <= n][: ((1 if adaptive else 2) if tier == "quick" else (2 if adaptive else 4))]
                     for p in ps:
                         for j in ((0, m - 1) if adaptive else (0, 2, m - 1)):
                             grid = [str(g) for g in gap_grids(m, tier, limit=1)[2]]
